@@ -8,6 +8,8 @@ CONSTANTS
   PolQ = "any"
   PolW = "any"
   FormOf <- FormsOrigin
+  UpOf <- UpNone
+  MaxToggles = 0
   MwEnabled = TRUE
   Variant = "asWritten"
   KeepRecords = FALSE
